@@ -261,3 +261,8 @@ N.append({'id': 'cxx-rename-all-locals', 'generator': 'rename-cxx-locals', 'file
 # spelling; constructors skipped): 3586 occurrences, built and tested the same way (31829 passed)
 N.append({'id': 'cxx-rename-all-locals-and-params', 'generator': 'rename-cxx-locals', 'params': True,
           'file': None, 'edits': []})
+
+# generated: as py-rename-all-locals plus every positional-only parameter (their spelling is not
+# part of the interface): 445 names; tested the same way (59303 passed)
+N.append({'id': 'py-rename-locals-and-posonly-params', 'generator': 'rename-python-locals', 'posonly': True,
+          'file': None, 'edits': []})
